@@ -500,6 +500,11 @@ class Update(object):
         # ---------------+--------+---------+------+
         #    Maker      | Length |  Type   |  msg |
         # ---------------+--------+---------+------+
+        if len(msg) + bgp_cons.HDR_LEN > bgp_cons.MAX_LEN:
+            # RFC 4271 4.1: no message is longer than 4096 octets
+            raise excep.UpdateMessageError(
+                sub_error=bgp_cons.ERR_MSG_UPDATE_ATTR_LEN,
+                data=struct.pack('!I', len(msg) + bgp_cons.HDR_LEN))
         return b'\xff' * 16 + struct.pack('!HB', len(msg) + 19, 2) + msg
 
     @staticmethod
